@@ -1,4 +1,5 @@
 import Az65.Drv.Expr
+import Az65.Drv.CR
 /-
 `azmodel`: line-protocol driver.  Reads `id \t mode \t args…` lines on stdin, prints
 `id \t <model/spec columns>` per line.  Imports only Model/Spec/Drv files (no Mathlib), so it
@@ -9,6 +10,7 @@ open Az65 Az65.Drv
 def dispatch (mode : String) (args : List String) : String :=
   match mode with
   | "expr" => runExpr args
+  | "cr" => runCR args
   | _ => "BADMODE"
 
 partial def loop (h : IO.FS.Stream) (out : IO.FS.Stream) : IO Unit := do
